@@ -1,5 +1,12 @@
 ----------------------------- MODULE MC_Cancel -----------------------------
-(* Exhaustive check of Cancel.tla: all programs over the instruction menu,   *)
-(* nesting <= MaxDepth, every moment of cancellation.                        *)
+(* Exhaustive check of Cancel.tla: all programs over the instruction menu    *)
+(* (plain, print to each destination in PrintKinds, call, for-in, return,    *)
+(* run-time error, the four waits), nesting <= MaxDepth, every moment of     *)
+(* cancellation, every ending in Outcomes of a child that ends by itself,    *)
+(* every moment at which a buffer is written out.                            *)
+(* The quick tier checks the invariants with all four print destinations and *)
+(* the liveness property Stops on the machine with one (tools/props/c15.py). *)
+(* Four variants of the model must each violate an invariant (thorough):     *)
+(* SharedCounter, PreferCtxErr, FlushOnCtxErr, WaitErrChecksDone = FALSE.    *)
 EXTENDS Cancel
 =============================================================================
